@@ -114,9 +114,45 @@ def same_seq(a, b, j):
     return And(seq_tag(a) == seq_tag(b), seq_len(a) == seq_len(b), Implies(And(0 <= j, j < seq_len(a)), seq_at(a, j) == seq_at(b, j)))
 
 
+def is_iter(sv):
+    """is_iterable on the value universe: list, tuple, range-like and dict are iterable, None and scalars (strings included) are not"""
+    if sv.kind == 'cv':
+        t = TAG(sv.t)
+        return Or(t == T_LIST, t == T_TUPLE, t == T_RNG, t == T_DICT)
+    if sv.kind in ('seqlit', 'copyof', 'tuple', 'repeat'):
+        return BoolVal(True)
+    if sv.kind == 'ite':
+        return If(sv.c, is_iter(sv.a), is_iter(sv.b))
+    raise OutOfSubset('is_iterable of %s' % sv.kind)
+
+
+def lens_contract(ex, st, n_values, len_at):
+    """callee contract of lens (proved from its body in C19.lens.*): raises ValueError iff two lengths other than 1 differ; otherwise returns 0 for no
+    values, the common length other than 1 if there is one, and 1 when every length is 1.  len_at(j) -> z3 Int (length of the j-th value)"""
+    p, q, k = Int(fresh_name('p!lens')), Int(fresh_name('q!lens')), Int(fresh_name('k!lens'))
+    differ = Exists([p, q], And(0 <= p, p < n_values, 0 <= q, q < n_values, len_at(p) != 1, len_at(q) != 1, len_at(p) != len_at(q)))
+    ex.raise_if(st, differ, 'ValueError')
+    r = fresh_int('lens')
+    ex.use('contract:lens (C19.lens.* obligations)')
+    st.assume(Implies(n_values == 0, r == 0))
+    st.assume(ForAll([k], Implies(And(0 <= k, k < n_values, len_at(k) != 1), r == len_at(k))))
+    st.assume(Implies(And(n_values > 0, ForAll([k], Implies(And(0 <= k, k < n_values), len_at(k) == 1))), r == 1))
+    return I(r)
+
+
 class Conts:
     def __init__(self, len0_contract=True):
         self.len0_contract = len0_contract
+
+    def len0_of(self, ex, sv):
+        if sv.kind == 'cv':
+            v = Const('v!len0', Val)
+            ex.fact(ForAll([v], And(LEN0(v) >= 0, Implies(Or(is_seq_tag(v), TAG(v) == T_DICT), LEN0(v) == LEN(SEQ(v))),
+                                    Implies(Or(TAG(v) == T_NONE, TAG(v) == T_OTHER), LEN0(v) == 0))))
+            return LEN0(sv.t)
+        if sv.kind == 'ite':
+            return If(sv.c, self.len0_of(ex, sv.a), self.len0_of(ex, sv.b))
+        return seq_len(sv)
 
     # -- displays
     def expr(self, ex, st, e):
@@ -128,6 +164,16 @@ class Conts:
         return NotImplemented
 
     def pre_call(self, ex, st, e):
+        if isinstance(e.func, ast.Name) and e.func.id in ('lens', 'zip') and len(e.args) == 1 and isinstance(e.args[0], ast.Starred) and not e.keywords:
+            seqs = ex.eval(st, e.args[0].value)
+            if seqs.kind not in ('lazylist', 'cvs'):
+                raise OutOfSubset('%s(*%s)' % (e.func.id, seqs.kind))
+            n, at = (seqs.n, seqs.at)
+            if e.func.id == 'zip':
+                ex.use('axiom:zip(*seqs) yields min(len) tuples (none for no sequences), the k-th holding the k-th element of every sequence')
+                return SV('zipof', None, n=n, at=at)
+            ex.use('assumed contract:len0(x) is len(x) for a sized non-string x and 0 otherwise (bounded-checked)')
+            return lens_contract(ex, st, n, lambda j: self.len0_of(ex, at(st.fork(), j)))
         if isinstance(e.func, ast.Name) and e.func.id == 'isinstance' and len(e.args) == 2:
             tn = e.args[1]
             names = [ast.unparse(x) for x in tn.elts] if isinstance(tn, ast.Tuple) else [ast.unparse(tn)]
@@ -162,6 +208,9 @@ class Conts:
                 ex.fact(Implies(is_seq_tag(a.t), LEN0(a.t) == LEN(SEQ(a.t))))
                 return I(LEN0(a.t))
             return I(seq_len(a))
+        if fname == 'is_iterable' and len(args) == 1 and args[0].kind in ('cv', 'seqlit', 'copyof', 'tuple', 'ite', 'repeat'):
+            ex.use('assumed contract:is_iterable(x) holds for list, tuple, range-like and dict values, not for None, strings and other scalars')
+            return B(is_iter(args[0]))
         if fname == 'set' and len(args) == 1 and args[0].kind == 'lazylist':
             ll = args[0]
             ex.use('axiom:set(xs) contains exactly the elements of xs')
